@@ -2,7 +2,7 @@
 C11 — geometric operations are rigid motions with the documented effect.
 
 Proof:  Molli.Props.C11 over Molli.Model.Geom (any field): rotVec_orth/det/maps(+direction), rotVec_antiparallel
-        (both variants), rotVecFull_spec, rotAxis_orth/det/fixes_axis/angle(+row_angle), rigid_dist, rigid_chirality,
+        (both variants), rotVecFull_spec, rotVec_antiparallel_ordered, rotVecFull_spec_ordered (no side condition left over ordered fields), rotAxis_orth/det/fixes_axis/angle(+row_angle), rigid_dist, rigid_chirality,
         substructure_moves_only_selected, moved_part_rigid, dihedral_after_rotation, rotate_dihedral_hits_target
         (+ _counterexample / _shipped_partial for the code as shipped: D23), centroid_after_centering,
         ens_conformerwise, align_reports_achieved, align_rigid.
@@ -680,7 +680,7 @@ def run(ctx):
     ctx.proof(props=["Molli.Props.C11"])
     q = ctx.quick()
     if not q:
-        G.leanchecker(ctx, ["Molli.Props.C11", "Molli.Lemmas.GeomField", "Molli.Lemmas.Geom", "Molli.Lemmas.GeomCert"])
+        G.leanchecker(ctx, ["Molli.Props.C11", "Molli.Lemmas.GeomOrdered", "Molli.Lemmas.GeomField", "Molli.Lemmas.Geom", "Molli.Lemmas.GeomCert"])
     B = Batch()
     sec_corpus(ctx, B)
     sec_rotvec(ctx, B, 400 if q else 20000)
